@@ -6,6 +6,7 @@
 From Coq Require Import ZArith NArith List Bool Lia.
 From RV Require Import Gen.Consts Gen.LinkGuards Model.SvgBuild Model.Links Proofs.SvgBuild Proofs.Links.
 From RV Require Import Model.LinksChk Model.LinksNest Proofs.LinksFrame Proofs.LinksNest.
+From RV Require Import Model.LinksSites Proofs.LinksSites.
 Import ListNotations.
 
 (* ---- the converter's reference-following recursion ends: for every document of any size and any mix
@@ -143,6 +144,35 @@ Theorem C03_nested_documents_bounded : forall (fs : fsys) (o : ropt) (d : idoc) 
 Proof. intros. split; [apply nest_bounded|apply nest_fuel_irrelevant]. Qed.
 Print Assumptions C03_nested_documents_bounded.
 
+(* ---- extension round 4, second pass ---- *)
+
+(* the visited-list walks (clippath.rs / mask.rs is_cacheable) end on every reference graph - tail + cycle (rho)
+   shapes included - for every document and start element: no fuel needed beyond |document|, every element is
+   visited at most once *)
+Theorem C03_chain_walk_terminates : forall (d : snode) (k : akey) (n : snode), In n (sflat d) -> (k = AClip \/ k = AMask) ->
+  snd (chain_walk d k n) = false /\ NoDup (map s_id (fst (chain_walk d k n))) /\
+  length (fst (chain_walk d k n)) <= length (sflat d).
+Proof. exact chain_walk_terminates. Qed.
+Print Assumptions C03_chain_walk_terminates.
+
+(* which guard breaks which shape: "stop at the current element", "stop at the current or the first element" and
+   no guard never stop on the rho-shaped mask chain m0 -> m1 -> m2 -> m3 -> m1 (whatever the fuel), the visited
+   list stops it after four elements *)
+Theorem C03_weak_guards_refuted : forall g, g = WSelf \/ g = WOrigin \/ g = WNone ->
+  forall fuel, snd (chain_go g (S fuel) rho_doc AMask (rho_m 0) (rho_m 0) [rho_m 0]) = true.
+Proof. exact weak_guards_refuted. Qed.
+Print Assumptions C03_weak_guards_refuted.
+
+(* every link-following construct of crates/usvg/src/parser/** (generated table SITES: node_attribute,
+   attribute::<SvgNode>, href_iter, element_by_id, resolve_href, per enclosing function, with the number of
+   occurrences) is classified with a mechanism that stops on every graph (stack of elements in progress, step
+   counter, visited list, in-progress list of the use expansion, or no further following) and the generated guard
+   that witnesses the mechanism is present *)
+Theorem C03_link_sites_covered :
+  forall s, In s SITES -> exists c, In c CLASSIFIED /\ site_matches s c = true.
+Proof. exact sites_have_complete_guards. Qed.
+Print Assumptions C03_link_sites_covered.
+
 Local Open Scope N_scope.
 Definition wit : xnode := XN 90 TShape (Some 99) false [(AFill, None)] [].
 Definition svg (ks : list xnode) : xnode := XN 0 TSvg None false [] ks.
@@ -270,3 +300,20 @@ Example C03_nv_duplicate_ids :
   | _ => False
   end.
 Proof. vm_compute. repeat split; reflexivity. Qed.
+
+(* ---- second pass: non-vacuity ---- *)
+(* list-valued filter attributes: mask 1 holds a shape filtered by "blur() url(#2)", filter 2 holds an feImage of
+   element 4, which uses mask 1 again (a 3-cycle the pre-pass does not see: node_attribute rejects lists): the
+   conversion ends (the inner use of mask 1 is rejected by the stack test, the outer one succeeds: element 4 stays, as in
+   the implementation), the witness stays; an element whose list has one valid
+   and one dangling entry stays, one whose only url is dangling goes *)
+Example C03_nv_filter_list :
+  names (parse (svg [XN 1 TMask (Some 1) false [] [XN 2 TShape None false [(AFilter, None); (AFilter, Some 2)] []];
+                     XN 3 TFilter (Some 2) false [] [XN 4 TFeImage None false [(AHref, Some 4)] []];
+                     XN 5 TShape (Some 4) false [(AMask, Some 1)] [];
+                     XN 6 TFilter (Some 5) true [] [XN 7 TFeOther None false [] []];
+                     XN 8 TShape (Some 6) false [(AFilter, Some 5); (AFilter, Some 77)] [];
+                     XN 9 TShape (Some 7) false [(AFilter, None); (AFilter, Some 77)] [];
+                     XN 10 TShape (Some 8) false [(AFilter, Some 77); (AFilter, Some 77)] []; wit]))
+  = Some [4; 6; 7; 99].
+Proof. vm_compute. reflexivity. Qed.
